@@ -67,9 +67,9 @@ theorem auto_insert_spec (h : Nat → Nat) (θ : Nat → Nat) (hθ : ThetaOK θ)
 theorem auto_findOrInsert_spec (h : Nat → Nat) (θ : Nat → Nat) (hθ : ThetaOK θ) (a : Auto)
     (M : Nat → Option Nat) (k v : Nat) (ai : AInv h θ a) (abs : Abs a.t M) :
     (∀ v', M k = some v' → ∃ p a', a.findOrInsert h θ k v = .ok (true, p, v', a') ∧ AInv h θ a' ∧
-        Abs a'.t M ∧ a'.t.s p = some (k, v')) ∧
+        Abs a'.t M ∧ a'.t.s p = some (k, v') ∧ a'.t.entries = a.t.entries) ∧
     (M k = none → ∃ p a', a.findOrInsert h θ k v = .ok (false, p, v, a') ∧ AInv h θ a' ∧
-        Abs a'.t (upd M k v) ∧ a'.t.s p = some (k, v)) := by
+        Abs a'.t (upd M k v) ∧ a'.t.s p = some (k, v) ∧ a'.t.entries = a.t.entries + 1) := by
   obtain ⟨inv, hthr, hle⟩ := ai
   have hpos := inv.wf.pos
   have h1 := hθ.le a.t.N hpos
@@ -84,13 +84,14 @@ theorem auto_findOrInsert_spec (h : Nat → Nat) (θ : Nat → Nat) (hθ : Theta
   constructor
   · intro v' hM
     obtain ⟨p, hf, _, hs⟩ := findOrInsert_found h a2.t M k v v' inv2 abs2 hM
-    exact ⟨p, a2, by simp [Auto.findOrInsert, hd, hf], ⟨inv2, hthr2, by omega⟩, abs2, hs⟩
+    exact ⟨p, a2, by simp [Auto.findOrInsert, hd, hf], ⟨inv2, hthr2, by omega⟩, abs2, hs, hE2⟩
   · intro hM
     obtain ⟨p, t', hf, inv', abs', hN', hE', _, hs⟩ :=
       findOrInsert_new h a2.t M k v inv2 abs2 hM hroom.1
-    refine ⟨p, { a2 with t := t' }, by simp [Auto.findOrInsert, hd, hf], ⟨inv', ?_, ?_⟩, abs', hs⟩
+    refine ⟨p, { a2 with t := t' }, by simp [Auto.findOrInsert, hd, hf], ⟨inv', ?_, ?_⟩, abs', hs, ?_⟩
     · show a2.thr = θ t'.N; rw [hN']; exact hthr2
     · show t'.entries ≤ a2.thr; omega
+    · show t'.entries = a.t.entries + 1; omega
 
 /-- the `AutoProbing` state `a` represents the map `M` -/
 structure ARef (h : Nat → Nat) (θ : Nat → Nat) (a : Auto) (M : Nat → Option Nat) : Prop where
